@@ -6,11 +6,17 @@ import (
 	"net/http"
 
 	"github.com/sassoftware/relic/v8/token/tokencache"
+	"github.com/sassoftware/relic/v8/zz_verif/reflectx"
 )
 
 // ZZNewHandler builds the worker's RPC handler around a token cache.
 func ZZNewHandler(tok *tokencache.Cache, cookie []byte, shutdown func()) http.Handler {
-	return &handler{token: tok, cookie: cookie, shutdown: shutdown}
+	// by field type, not by field name: a rename must not break the check
+	h := new(handler)
+	if err := reflectx.Fill(h, tok, cookie, shutdown); err != nil {
+		panic(err)
+	}
+	return h
 }
 
 // ZZHealthCheck runs the worker's own token health check loop (it ends the
